@@ -392,6 +392,82 @@ func ruleGate(c *Ctx) {
 		}
 	}
 
+	// text the library produces itself and keeps for a later validity-assuming parse: the
+	// encoder's output is well-formed, but it can nest deeper than the scanner accepts
+	// (a value of admissible depth inserted deep inside a document of admissible depth), and
+	// the validity-assuming decoder runs off the end of such a text. Encoder output that
+	// becomes the text of a node therefore has to pass the gate like any other text.
+	for _, fn := range libFuncs {
+		n := 0
+		allInstrs(fn, func(i ssa.Instruction) {
+			call, ok := i.(*ssa.Call)
+			if !ok {
+				return
+			}
+			f := call.Call.StaticCallee()
+			if f == nil || f.Pkg != b.Codec || !strings.HasPrefix(f.Name(), "Marshal") {
+				return
+			}
+			res := f.Signature.Results()
+			if res.Len() == 0 || !isByteSlice(res.At(0).Type()) {
+				return
+			}
+			var seed ssa.Value = call
+			if res.Len() > 1 {
+				seed = nil
+				for _, r := range *call.Referrers() {
+					if ex, ok := r.(*ssa.Extract); ok && ex.Index == 0 {
+						seed = ex
+					}
+				}
+				if seed == nil {
+					return
+				}
+			}
+			t := taintClosure(fn, []ssa.Value{seed}, nil)
+			gates := b.validGates(fn, seed)
+			allInstrs(fn, func(j ssa.Instruction) {
+				kept := ""
+				switch y := j.(type) {
+				case *ssa.Store:
+					if fa, ok := y.Addr.(*ssa.FieldAddr); ok && t[y.Val] && fieldName(fa.X.Type(), fa.Field) == "raw" {
+						kept = "stored as a node's raw text"
+					}
+				case *ssa.Call:
+					g := y.Call.StaticCallee()
+					if g == nil || g.Pkg != b.Lib || y == call {
+						return
+					}
+					hit := false
+					for _, a := range y.Call.Args {
+						if t[a] && (isByteSlice(a.Type()) || isPtrToNamed(a.Type(), "RawMessage")) {
+							hit = true
+						}
+					}
+					if hit && g.Signature.Results().Len() == 1 && isPtrToNamed(g.Signature.Results().At(0).Type(), "lazyNode") {
+						kept = "made the text of a node by " + fname(g)
+					}
+				}
+				if kept == "" {
+					return
+				}
+				n++
+				key := fmt.Sprintf("%s: encoder output #%d that becomes a node's text passes json.Valid first", b.canonFname(fn), n)
+				dom := false
+				for _, g := range gates {
+					if edgeDominates(g.blk, g.succ, j.Block()) {
+						dom = true
+					}
+				}
+				if dom {
+					l.add("R-GATE", "v5", key, b.posOf(j), Discharged, "the output of "+fname(f)+" is "+kept+" only on the valid edge of json.Valid applied to it", true)
+				} else {
+					l.add("R-GATE", "v5", key, b.posOf(j), Violated, "the output of "+fname(f)+" is "+kept+" without passing json.Valid: the encoder can emit a text nested deeper than the scanner accepts (a value inserted deep inside a deep document), and a later descent into the node hands it to the validity-assuming decoder, which runs off the end of the text (index out of range)", true)
+				}
+			})
+		})
+	}
+
 	// gates census
 	ng := 0
 	for _, fn := range libFuncs {
